@@ -23,4 +23,9 @@ var MutatingPrograms = []string{
 	"[{}, {\"a\":1}, .] | add", ".[1]?, add?, .[1]?", "[[], .[0]?, [1]] | add", "[{}, .[]?] | add?", "[null, {}, .[]?] | add?", "reduce .[]? as $x ({}; . + $x)?", "[{}, {a:1}, {b:2}] | (.[1], add, .[1])",
 	"({} + . + {z:1})?", "([] + . + [1])?", "[{}, .] | add? | .zz? = 1", "[.[]?] | add? | (.zz = 1)?", "[[], .[]?] | add? | (.[0] = 1)?", "({} * .)?", "[{}, $v[2]?, {b:2}] | add?", "[[], $v, [1]] | add?",
 	"[{}, {\"a\":1}, .] | add | ., .", "[.[]? | [{}, .] | add?]", "[\"\", (.[]? | strings)] | add", "[{}, (.[]? | objects), (.[]? | objects)] | add",
+	// messages and listings derived from (wide) objects: identical on every run
+	"try (.b + 1) catch .", "try (.[2] + 1) catch .", "try (.b | implode) catch .", "try (.b[0]) catch .", "try (.a.b | .[0]) catch .", "try (.b - 1) catch .", "try ({} | .[$v]) catch .", "try error catch .", "try (.b | error) catch (. | tostring)",
+	"(.b | . + 1)?, (try (.c * 2) catch .)", "try (.[2] | ltrimstr(1) | test(\"a\")) catch .", "[.. | objects | try (. + 1) catch .]", "try (.b | tonumber) catch .", "try ([.b] | implode) catch .", "try (.b | splits(\"a\")) catch .",
+	"try (1 - .b) catch .", "try (.b | .[1:]) catch .", "try ([1] | .[.b]) catch .", "[.b, .c] | map(try (. + 1) catch .)", ".b | [keys, to_entries[0], (tojson | length), tostring[:20]]?", "try (.[2] | has(0)) catch .", "try (.b | sort) catch .",
+	"(.b + 1)", ".[2] + 1", ".b | implode", ".b - 1",
 }
